@@ -65,11 +65,12 @@ def proc_cpu_s(pid):
         return 0.0
 
 
-def run_specs(specs, repo, workdir, jobs, default_timeout):
+def run_specs(specs, repo, workdir, jobs, default_timeout, stop_pred=None):
     """Run worker specs with at most `jobs` concurrent subprocesses. Returns list of (spec, result|None, why)."""
     pending = list(enumerate(specs))
     running = []
     results = [None] * len(specs)
+    stopped = False
     while pending or running:
         while pending and len(running) < jobs:
             i, spec = pending.pop(0)
@@ -101,12 +102,25 @@ def run_specs(specs, repo, workdir, jobs, default_timeout):
             if os.path.exists(op):
                 try:
                     results[i] = (spec, json.load(open(op)), None if rc == 0 else "rc=%d" % rc)
+                    if stop_pred is not None and stop_pred(results[i][1]):
+                        # matrix mode (VERIF_STOP_AT_FIRST_VIOLATION=1): the verdict is already "violated"; do not spend
+                        # the remaining shards' CPU
+                        stopped = True
                 except Exception as e:
                     results[i] = (spec, None, "unreadable output: %s" % e)
             else:
                 tail = open(os.path.join(workdir, "err%d.txt" % i)).read()[-1500:]
                 results[i] = (spec, None, "worker died rc=%s: %s" % (rc, tail))
         running = still
+        if stopped:
+            for item in running:
+                item[2].kill()
+                item[2].wait()
+                item[6].close()
+                results[item[0]] = (item[1], None, "not finished: stopped at first violation")
+            for i, spec in pending:
+                results[i] = (spec, None, "not run: stopped at first violation")
+            break
     return results
 
 
@@ -190,7 +204,11 @@ def do_check(mod, prop, tier, seed, repo, workdir, jobs):
     default_timeout = getattr(mod, "TIMEOUT", {}).get(tier, 900 if tier == "quick" else 6 * 3600)
     if os.environ.get("VERIF_WATCHDOG_S"):
         default_timeout = int(os.environ["VERIF_WATCHDOG_S"])
-    results = run_specs(specs, repo, workdir, jobs, default_timeout)
+    stop_pred = None
+    if os.environ.get("VERIF_STOP_AT_FIRST_VIOLATION"):
+        open_mechs = {f["mechanism"] for f in open_known}
+        stop_pred = lambda res: any(v.get("mech") not in open_mechs for v in res.get("violations", []))  # noqa: E731
+    results = run_specs(specs, repo, workdir, jobs, default_timeout, stop_pred)
 
     counters, required, notes, samples = {}, set(), [], []
     evaluations = 0
